@@ -14,7 +14,7 @@ from ..loader import AnalysisError
 from ..dataflow import key, varkey, unawait
 from ..engine import terms
 from ..kinds import expr_kind, kind, kind_env, L, Rk, ANY, MIXED, UNK
-from ..locks import LockInfo, rule_with_only, rule_guarded_by, rule_order, rule_deny, GUARDED_BY_IO
+from ..locks import LockInfo, rule_with_only, rule_guarded_by, rule_order, rule_deny, GUARDED_BY_IO, GUARDED_BY_DEV
 from ..roles import all_roles
 from ..terms import show
 from ..util import src, node_calls, call_attr, norm_stmt, own_calls
@@ -27,6 +27,7 @@ def check(ctx, R):
     for roles in all_roles(ctx):
         li = LockInfo(ctx, roles)
         rule_guarded_by(ctx, R, roles, li, GUARDED_BY_IO, roles.io_cls)
+        rule_guarded_by(ctx, R, roles, li, GUARDED_BY_DEV, roles.dev_cls)     # two streams with one local id would receive each other's packets
         rule_with_only(ctx, R, roles, li)
         rule_order(ctx, R, roles, li)
         rule_deny(ctx, R, roles, li)
